@@ -1,6 +1,6 @@
 #!/bin/bash
 # seedcheck.sh <id> [<wtdir>] : independently confirm a seeded change: applies to current /repo HEAD, suite passes with it, demo fails with it / passes without.
-id=$1; wt=${2:-/tmp/wt/$id}; out=/verif/.scratch/seedcheck; mkdir -p $out; log=$out/$id.log
+id=$1; wt=${2:-/tmp/wt/$id}; out=/verif/.scratch/seedcheck; mkdir -p $out; log=$out/${SEEDTAG:-}$id.log
 {
 echo "== seedcheck $id in $wt at $(date)"
 cd $wt || exit 2
